@@ -1,9 +1,10 @@
+pub mod c12;
 pub mod c13;
 
 use crate::kernel::Check;
 
 pub fn registry() -> Vec<&'static dyn Check> {
-    vec![&c13::C13]
+    vec![&c12::C12, &c13::C13]
 }
 
 pub fn find(id: &str) -> Option<&'static dyn Check> {
